@@ -384,7 +384,8 @@ def debug_module(idx, desc, entry, rnd):
 # C11 Default
 # ------------------------------------------------------------------------------------------------
 DV_SRC = {"none": None, "str": "\"abc\"", "path": "::dx_support::SRC7", "assoc_path": "::dx_support::Holder::SRC3",
-          "call": "::dx_support::mk(5)", "block": "{ ::dx_support::mk(6) }", "method": "::dx_support::mk(4).same()"}
+          "call": "::dx_support::mk(5)", "block": "{ ::dx_support::mk(6) }", "method": "::dx_support::mk(4).same()", "int": "5", "neg": "-3"}
+DV_TY = {"int": "u8", "neg": "i8"}
 
 
 def default_module(idx, P, entry):
@@ -407,7 +408,7 @@ def default_module(idx, P, entry):
                 at = "#[default(%s)] " % e
             elif f.get("underscore"):
                 at = "#[default(_)] "
-            fs.append(at + (("f%d: " % j) if v["shape"] == "named" else "") + "Pr")
+            fs.append(at + (("f%d: " % j) if v["shape"] == "named" else "") + DV_TY.get(f["dv"], "Pr"))
         if v["shape"] == "named":
             return "{ " + ", ".join(fs) + " }"
         if v["shape"] == "tuple":
@@ -429,7 +430,7 @@ def default_module(idx, P, entry):
     # the type-level special value: variant 1 with marker provenance
     v0 = P["variants"][0]
     path0 = "T" if P["kind"] == "struct" else "T::A0"
-    marks = ["Pr(\"type_level\".to_string())" for _ in v0["fields"]]
+    marks = [("Pr(\"type_level\".to_string())" if f["dv"] not in DV_TY else "77") for f in v0["fields"]]
     if v0["shape"] == "named":
         sp = "%s { %s }" % (path0, ", ".join("f%d: %s" % (j, m) for j, m in enumerate(marks)))
     elif v0["shape"] == "tuple":
@@ -448,7 +449,9 @@ def default_module(idx, P, entry):
             pat = "%s(%s)" % (path, ", ".join("g%d" % j for j in range(n)))
         else:
             pat = path
-        lines.append("        %s => (%d, vec![%s])," % (pat, vi + 1, ", ".join("::std::string::String::from(g%d.0.as_str())" % j for j in range(n))))
+        shows = [("::std::string::String::from(g%d.0.as_str())" % j) if f["dv"] not in DV_TY else ("(if *g%d as i32 == 77 { \"type_level\".to_string() } else { format!(\"int:{}\", g%d) })" % (j, j))
+                 for j, f in enumerate(v["fields"])]
+        lines.append("        %s => (%d, vec![%s])," % (pat, vi + 1, ", ".join(shows)))
     lines.append("    } }")
     lines.append("""    pub fn run() -> String {
         let d = <T as ::core::default::Default>::default();
